@@ -92,6 +92,7 @@ pub use zip_writer::ZipWriter;
 impl<W: Write + io::Seek> ZipWriter<W> {
 //@use zw_new
 //@use zw_set_raw_comment
+//@use zw_set_comment
 //@use zw_finish_file
 //@use zw_end_extra_data
 //@use zw_start_entry
